@@ -122,16 +122,15 @@ impl World {
         if r.dst_ip == [0; 4] {
             r.dst_ip = BCAST;
         }
-        match if self.zero_src { src.weighted(&[20, 2, 3]) } else { src.weighted(&[20, 1]) } {
-            0 => {}
-            1 => {
+        // source address of the datagram: the server's own, except in cases drawn to have a wandering
+        // (1 = another unicast address) or an unspecified (2 = 0.0.0.0) source
+        if self.weird_src != 0 && src.chance(1, 4) {
+            self.src_varied = true;
+            if self.weird_src == 1 {
                 r.src_ip = [p.srv_ip[0], p.srv_ip[1], p.srv_ip[2], p.srv_ip[3] ^ 0x40];
-                self.src_varied = true;
                 ctx.label("reply:src-ip-other");
-            }
-            _ => {
+            } else {
                 r.src_ip = [0; 4];
-                self.src_varied = true;
                 ctx.label("reply:src-ip-unspecified");
             }
         }
@@ -255,12 +254,29 @@ impl World {
         let xid = if self.sent_any && src.chance(2, 3) {
             self.last_xid
         } else {
-            // before the first client message: typical constants an attacker would try
+            // typical constants an attacker would try
             *src.pick(&[1u32, 0, 2, 0xffff_ffff])
         };
         let r = self.mk_reply(mtype, xid, src, ctx);
-        ctx.label(if self.sent_any { "reply:unsolicited" } else { "reply:unsolicited-before-first-message" });
+        ctx.label("reply:unsolicited");
         self.send_reply(&r, src, ctx);
+    }
+
+    /// Replies that reach the client before it has transmitted anything: an OFFER/ACK pair (or single
+    /// messages) carrying a guessed transaction id.
+    fn unsolicited_before_first(&mut self, src: &mut Src, ctx: &mut Ctx) {
+        let xid = *src.pick(&[1u32, 0, 2, 0xffff_ffff, 0x1234_5678]);
+        let kinds: &[u8] = match src.weighted(&[3, 1, 1, 1]) {
+            0 => &[OFFER, ACK],
+            1 => &[ACK],
+            2 => &[OFFER],
+            _ => &[ACK, OFFER, ACK],
+        };
+        ctx.label("reply:unsolicited-before-first-message");
+        for k in kinds {
+            let r = self.mk_reply(*k, xid, src, ctx);
+            self.send_reply(&r, src, ctx);
+        }
     }
 
     fn next_time(&mut self, src: &mut Src, ctx: &mut Ctx) -> i64 {
@@ -339,14 +355,19 @@ fn case(src: &mut Src, ctx: &mut Ctx) -> Result<(), Fail> {
     };
     let srv_id = if src.chance(1, 6) { [192, 0, 2, 77] } else { srv_ip };
     let plan = Plan { yi, prefix, srv_ip, srv_id, router };
-    let arp_policy = match src.weighted(&[5, 4, 1]) {
+    let arp_policy = match src.weighted(&[4, 4, 1, 4]) {
         0 => ArpPolicy::Answer,
         1 => ArpPolicy::Never,
-        _ => ArpPolicy::Sometimes,
+        2 => ArpPolicy::Sometimes,
+        _ => ArpPolicy::Proactive,
     };
     let renew_policy = src.weighted(&[4, 3, 3]) as u8;
-    // a server whose datagrams carry source address 0.0.0.0 (accepted by process_ipv4) in 1 case of 25
-    let zero_src = src.chance(1, 25) && !skip_has("zero-src");
+    // a server whose datagrams sometimes carry another unicast source (3 in 24 cases) or source
+    // address 0.0.0.0, which process_ipv4 lets through (1 in 24 cases)
+    let mut weird_src = src.weighted(&[20, 3, 1]) as u8;
+    if weird_src == 2 && skip_has("zero-src") {
+        weird_src = 0;
+    }
 
     ctx.note(|| {
         format!(
@@ -407,6 +428,8 @@ fn case(src: &mut Src, ctx: &mut Ctx) -> Result<(), Fail> {
         src_varied: false,
         sent_any: false,
         last_xid: 0,
+        last_type: 0,
+        offer_seen: false,
         xids: vec![],
         configured: false,
         have_lease: false,
@@ -418,10 +441,12 @@ fn case(src: &mut Src, ctx: &mut Ctx) -> Result<(), Fail> {
         lease_sched: false,
         routable: false,
         abort: false,
-        zero_src,
+        weird_src,
         lease_renew_seen: false,
         lease_rebind_seen: false,
-        gate_suspect_until: 0,
+        gate_until: 0,
+        lease_gate_free: false,
+        applied: None,
         ref_t: t0,
         unconf_sched: true,
         deadline: None,
@@ -441,16 +466,13 @@ fn case(src: &mut Src, ctx: &mut Ctx) -> Result<(), Fail> {
     }
 
     // ---- unsolicited traffic before the client has said anything
-    if src.chance(1, 10) {
-        let n = src.range(1, 3);
-        for _ in 0..n {
-            w.unsolicited(src, ctx);
-        }
+    if src.chance(1, 12) {
+        w.unsolicited_before_first(src, ctx);
     }
 
     // ---- main loop
     let mut steps = 0;
-    while steps < 70 && src.more(34, 35) {
+    while steps < 120 && src.more(49, 50) {
         steps += 1;
         if steps > 1 && src.chance(1, 14) {
             w.unsolicited(src, ctx);
@@ -484,11 +506,14 @@ pub fn prop() -> Prop {
         parts: vec![Part { name: "lease", case, quick: 30_000, thorough: 1_500_000 }],
         phases: vec![],
         smoltcp_panic_is_violation: true,
-        rule: "one Ethernet node with a dhcpv4 socket (retry configuration, max_lease_duration, ignore_naks, ports, outgoing options, receive buffer drawn) whose application applies Configured/Deconfigured as examples/dhcp_client.rs; a scripted server answers each client message seen on the wire with OFFER/ACK/NAK/other, each with 0..2 drawn defects (xid previous/random/off-by-one, foreign chaddr, server id absent/changed, mask absent/non-contiguous, yiaddr broadcast/zero/multicast, bad cookie, wrong ports, foreign MAC, bad UDP checksum, option list overrun early/late or without end), lease/T1/T2 from boundary lists, loss, delay and duplication in both directions, unsolicited replies (also before the first client message), ARP answered/ignored; <=70 polls at poll_at, at the same instant, just before/at/after T1, T2 and expiry, or at random instants; oracle = lease model over independently decoded frames, socket events and Interface::poll_at; non-trivial = at least one valid ACK accepted and (at least one near-miss ACK delivered or a T1/T2/expiry crossing while bound); distinct by digest of (configuration, reply kinds, crossings)",
+        rule: "one Ethernet node with a dhcpv4 socket (retry configuration, max_lease_duration, ignore_naks, ports, outgoing options, receive buffer drawn) whose application applies Configured/Deconfigured as examples/dhcp_client.rs; a scripted server answers each client message seen on the wire with OFFER/ACK/NAK/other, each with 0..2 drawn defects (xid previous/random/off-by-one, foreign chaddr, server id absent/changed, mask absent/non-contiguous, yiaddr broadcast/zero/multicast, bad cookie, wrong ports, foreign MAC, bad UDP checksum, option list overrun early/late or without end), lease/T1/T2 from boundary lists, loss, delay and duplication in both directions, unsolicited replies (also before the first client message), ARP answered/ignored; <=120 polls at poll_at, at the same instant, just before/at/after T1, T2 and expiry, or at random instants; oracle = lease model over independently decoded frames, socket events and Interface::poll_at; non-trivial = at least one valid ACK accepted and (at least one near-miss ACK delivered or a T1/T2/expiry crossing while bound); distinct by digest of (configuration, reply kinds, crossings)",
         assumptions: vec![
             "independent Ethernet/ARP/IPv4/UDP codecs in vkit::indep and the DHCP codec in c18_dhcp.rs",
             "'most recent request' = the most recent client DHCP message seen on the wire (DISCOVER counts: the client reuses its xid for the following REQUEST)",
-            "an ACK whose option list lacks the end option or ends in an overrunning option, but carries all required fields before that point, may be accepted or ignored",
+            "the client counts as requesting/renewing when its latest message on the wire is a REQUEST or an acceptable OFFER (current xid, own chaddr, server id, unicast yiaddr) reached it since its latest message",
+            "an ACK whose option list lacks the end option or ends in an overrunning option (all required fields before that point), or whose IP source is not unicast, may be accepted or ignored",
+            "when several valid ACKs arrive in one poll the last one governs address and expiry",
+            "liveness checks (no-rebind/no-renew/rebind-without-renew) only apply to leases of at least 1 s whose every poll was made no later than poll_at asked",
             "a Deconfigured event earlier than expiry is always permitted",
             "clause 4 bound = max(discover_timeout, initial_request_timeout << ((max(request_retries,1)-1)/2)) + 1 s",
         ],
